@@ -116,8 +116,10 @@ Proof.
   - cbn in H. assert (n = 0) by lia. subst. reflexivity.
   - cbn [hex_digits]. destruct (Z.ltb_spec n 16) as [L|L].
     + cbn [parse_hex]. rewrite hex_value_digit by lia. f_equal.
-    + rewrite IH.
-      * cbn [parse_hex]. rewrite hex_value_digit by lia. f_equal. lia.
+    + assert (Es : Z.shiftr n 4 = n / 16) by (rewrite Z.shiftr_div_pow2 by lia; reflexivity).
+      assert (El : Z.land n 15 = n mod 16) by (change 15 with (Z.ones 4); rewrite Z.land_ones by lia; reflexivity).
+      rewrite Es, El. rewrite IH.
+      * cbn [parse_hex]. rewrite hex_value_digit by lia. f_equal. rewrite Z.shiftl_mul_pow2 by lia. change (2 ^ 4) with 16. lia.
       * rewrite Nat2Z.inj_succ, Z.pow_succ_r in H by lia. lia.
 Qed.
 
